@@ -127,6 +127,9 @@ class SpatialVector(SMUserList):
         return (6,)
 
     def __getitem__(self, i):
+        if isinstance(i, slice) and len(self.data[i]) == 0:
+            # an empty slice is an empty object, as for a list
+            return self.__class__.Empty()
         return self.__class__(self.data[i])
     # ------------------------------------------------------------------------ #
 
